@@ -23,6 +23,8 @@
 //     fallthrough), return (also naked), :=, =, op=, ++, --, var, assignments
 //     to fields of the receiver or of local struct values; statements after a
 //     branching statement are duplicated into both branches;
+//   - a `panic(…)` statement (outside loops) makes the result `none`, like
+//     every other run-time panic;
 //   - expressions: literals, constants (folded with go/types, so imported
 //     constants such as dns.MaxMsgSize are resolved from the dependency's
 //     export data), parameters, locals, field selectors, arithmetic,
@@ -1453,6 +1455,12 @@ func (c *fctx) stmts(list []ast.Stmt) string {
 		}
 		if c.matches(c.spec.Ignore, call) {
 			return c.stmts(rest)
+		}
+		if id, ok := call.Fun.(*ast.Ident); ok && id.Name == "panic" && c.loop == nil {
+			if _, isB := c.p.info.Uses[id].(*types.Builtin); isB {
+				c.partial = true
+				return "none"
+			}
 		}
 		if !c.trace {
 			fail("call statement %s (not ignored, no trace)", c.show(x))
